@@ -204,7 +204,7 @@ def run(case, drv) -> Outcome:
                     Y = new.data[gsl].permute(0, 2, 3, 4, 1).reshape(-1, 2).to(torch.complex128)
                     sol = torch.linalg.lstsq(D, Y).solution  # (c, 2) = M^T
                     M = sol.T
-                    if float((D @ sol - Y).abs().max()) > 1e-3 * max(1.0, float(Y.abs().max())):
+                    if float((D @ sol - Y).abs().nan_to_num(nan=float('inf')).max()) > 1e-3 * max(1.0, float(Y.abs().max())):
                         viol = viol or v('compress-linear', f'compressed data ({variant}) are not one matrix applied to the coil axis of the group')
                         break
                     if torch.linalg.matrix_rank(D) >= c and not torch.allclose(M @ M.conj().T, torch.eye(2, dtype=torch.complex128), atol=1e-3):
